@@ -455,7 +455,7 @@ def run_check(prop, tier):
         # The last runs of every chunk were executed after all other runs of the chunk in the same
         # interpreter.  Executed alone in a fresh interpreter they must be observed identically: a difference
         # means an answer depends on what the process did before - state the library keeps somewhere the
-        # simulated process start does not reset (for C10/C12/C18/C04 that is the property itself).
+        # simulated process start does not reset (for C10/C12/C18/C04 that is the property itself; for C16/C17 it contradicts "a function of the edit history").
         hist_viol = []
         hist_checked = 0
         if getattr(mod, "HISTORY_CHECK", False) and not os.environ.get("VERIF_NO_HISTORY_CHECK"):
